@@ -1,5 +1,6 @@
 import Restli.Proofs.Escape
 import Restli.Proofs.RoundTrip3
+import Restli.Proofs.RoundTripJson
 /-! # C01 — codec round trip (property theorems)
 
 Part 1: the three ROR2 string flavours, for **every byte string**, against the regenerated
@@ -83,7 +84,7 @@ theorem c01_ror2_roundtrip_path (t : Tables) (ht : TablesOk t) (F : FloatLaws) (
     (hv : ValOK v) (henc : encode (wcfg env) f [] ty v = .ok (.obj kvs)) :
     unmarshalRor2 (rcfg env false ign) ty (renderRor2 (escapeWith t.pathSafe) (.obj kvs)) =
       .ok (norm env f ty v) { rest := [], start := false, missing := [] } :=
-  ror2_roundtrip_obj ⟨env, _, false, escLaws_path t ht, F, schemaOK_of_check env hS⟩ ign f ty v kvs hv henc
+  ror2_roundtrip_obj env _ false (escLaws_path t ht) F (schemaOK_of_check env hS) ign f ty v kvs hv henc
 
 /-- query-string flavour (`Ror2QueryEscape` / `url.QueryUnescape`) -/
 theorem c01_ror2_roundtrip_query (t : Tables) (ht : TablesOk t) (F : FloatLaws) (env : Env)
@@ -91,7 +92,7 @@ theorem c01_ror2_roundtrip_query (t : Tables) (ht : TablesOk t) (F : FloatLaws) 
     (hv : ValOK v) (henc : encode (wcfg env) f [] ty v = .ok (.obj kvs)) :
     unmarshalRor2 (rcfg env true ign) ty (renderRor2 (escapeWith t.querySafe) (.obj kvs)) =
       .ok (norm env f ty v) { rest := [], start := false, missing := [] } :=
-  ror2_roundtrip_obj ⟨env, _, true, escLaws_query t ht, F, schemaOK_of_check env hS⟩ ign f ty v kvs hv henc
+  ror2_roundtrip_obj env _ true (escLaws_query t ht) F (schemaOK_of_check env hS) ign f ty v kvs hv henc
 
 /-- header flavour (`headerEncodingEscaper` / `url.PathUnescape`) -/
 theorem c01_ror2_roundtrip_header (t : Tables) (ht : TablesOk t) (F : FloatLaws) (env : Env)
@@ -99,7 +100,7 @@ theorem c01_ror2_roundtrip_header (t : Tables) (ht : TablesOk t) (F : FloatLaws)
     (hv : ValOK v) (henc : encode (wcfg env) f [] ty v = .ok (.obj kvs)) :
     unmarshalRor2 (rcfg env false ign) ty (renderRor2 (replaceWith t.headerEscapes) (.obj kvs)) =
       .ok (norm env f ty v) { rest := [], start := false, missing := [] } :=
-  ror2_roundtrip_obj ⟨env, _, false, escLaws_header t ht, F, schemaOK_of_check env hS⟩ ign f ty v kvs hv henc
+  ror2_roundtrip_obj env _ false (escLaws_header t ht) F (schemaOK_of_check env hS) ign f ty v kvs hv henc
 
 /-- values of every type (bare primitives, arrays, enums, fixed, typerefs too), nested anywhere
 inside a document: the tree reader on the raw-token tree of the writer's output returns the
@@ -110,14 +111,34 @@ theorem c01_ror2_roundtrip_nested (t : Tables) (ht : TablesOk t) (F : FloatLaws)
     (hS : schemaOKb env = true) (ign f : Nat) (scopeW : List Bytes) (scopeR : List Seg) (top : Bool)
     (ty : Ty) (v : Value) (doc : Doc) (hv : ValOK v) (henc : encode (wcfg env) f scopeW ty v = .ok doc) :
     treeRead (tcOf (rcfg env true ign)) top scopeR ty (rawOf (escapeWith t.querySafe) doc) =
-      .ok (norm env f ty v) [] :=
-  roundtrip_tree ⟨env, _, true, escLaws_query t ht, F, schemaOK_of_check env hS⟩ ign f scopeW scopeR top ty v doc hv henc
+      .ok (norm env f ty v) [] := by
+  rw [rawOf_eq_treeOf _ true doc]
+  exact roundtrip_tree (ror2Ctx env _ true (escLaws_query t ht) F (schemaOK_of_check env hS)) ign f scopeW scopeR top ty v doc hv henc
 
 /-- …and every document the writer emits is the rendering of a well-formed raw-token tree -/
 theorem c01_ror2_output_wellformed (t : Tables) (ht : TablesOk t) (F : FloatLaws) (doc : Doc) :
     renderRor2 (escapeWith t.querySafe) doc = renderRaw (rawOf (escapeWith t.querySafe) doc) ∧
     RawWF (rawOf (escapeWith t.querySafe) doc) :=
   ⟨renderRor2_eq_renderRaw _ doc, rawOf_wf _ true (escLaws_query t ht) F doc⟩
+
+/-! Part 3: **JSON, at the level of the document tree.** The same generic induction
+(`roundtrip_tree`, parametrised by how a format presents leaves and keys) instantiated with the
+JSON reader's leaf semantics: integers parse back, floats go through `FloatLaws` (and, for float32,
+`ConvLaws`: the reader parses a float64 and narrows it), bytes are written one code point per byte
+and read back by the proved `runes_latin1`, NaN / ±Infinity travel as the three reserved strings.
+What is *not* a theorem is the step from the emitted text to this tree; it is checked on every run
+by two independent strict parsers (C03's oracle). -/
+
+theorem c01_json_roundtrip_tree (env : Env) (F : FloatLaws) (C : ConvLaws) (hS : schemaOKb env = true)
+    (ign f : Nat) (scopeW : List Bytes) (scopeR : List Seg) (top : Bool) (ty : Ty) (v : Value) (doc : Doc)
+    (hv : ValOK v) (henc : encode (wcfg env) f scopeW ty v = .ok doc) :
+    treeRead { env := env, tracker := { excl := .empty, ignore := ign } } top scopeR ty (treeOf jsonEnc doc) =
+      .ok (norm env f ty v) [] :=
+  json_roundtrip_tree env F C (schemaOK_of_check env hS) ign f scopeW scopeR top ty v doc hv henc
+
+/-- bytes and fixed values survive the JSON string representation: every byte 0x00–0xFF -/
+theorem c01_json_bytes_roundtrip (b : Bytes) : jsonPrim .bytes (.str (latin1 b)) = .ok (.bytes b) [] :=
+  jsonPrim_bytes b
 
 /-! non-vacuity: a schema with an include, required / optional / defaulted fields, a union, an
 enum and a map of arrays, and a value with metacharacters, an empty key and an empty array, meet
